@@ -264,6 +264,40 @@ def gen_case(kind):
     return fn
 
 
+def after_operations(ctx, k):
+    """Connectivity of a mesh re-checked after other public operations were called on it: the cached tables must still
+    describe the (unchanged) cell list."""
+    rng = ctx.rng()
+    kind = ("tri", "tet", "quad", "hex", "line")[k % 5]
+    mc = G.first_order(rng, kind)
+    mesh = mc.mesh
+    if mesh.t.shape[1] > 80:
+        mc = G.first_order(ctx.rng("smaller"), kind)
+        mesh = mc.mesh
+    check_mesh(ctx, mesh, kind, dict(mc.desc, phase="before"))
+    t0 = np.array(mesh.t)
+    ops = []
+    d = mesh.p.shape[0]
+    for name, fn in (("oriented", lambda: mesh.oriented()), ("refined", lambda: mesh.refined(1)),
+                     ("adaptive", lambda: mesh.refined(np.array([0]))), ("mirrored", lambda: mesh.mirrored(tuple([1.0] + [0.0] * (d - 1)))),
+                     ("restrict", lambda: mesh.restrict(np.arange(max(1, mesh.t.shape[1] // 2)))),
+                     ("with_boundaries", lambda: mesh.with_boundaries({"b": lambda x: x[0] < np.median(x[0])})),
+                     ("smoothed", lambda: mesh.smoothed()), ("scaled", lambda: mesh.scaled(2.0) if d == 1 else mesh.scaled(tuple([2.0] * d))),
+                     ("element_finder", lambda: mesh.element_finder()), ("to_dict", lambda: mesh.to_dict()),
+                     ("remove_elements", lambda: mesh.remove_elements(np.array([0])))):
+        if rng.random() < 0.6:
+            try:
+                fn()
+                ops.append(name)
+            except Exception:
+                pass   # an operation the class does not offer
+    ctx.check("renumbering-invariance", np.array_equal(np.asarray(mesh.t), t0), mech="operation-modifies-cell-list-of-operand",
+              ops=ops, kind=kind)
+    check_mesh(ctx, mesh, kind, dict(mc.desc, phase="after", ops=ops))
+    ctx.reached("rechecked-after-operations")
+    ctx.nontrivial(type(mesh).__name__, "after-operations", tuple(ops[:3]))
+
+
 def docs_meshes(ctx, k):
     import glob
     import os
@@ -302,5 +336,6 @@ SUITE = True   # thorough tier also runs the repository suite with this oracle a
 FAMILIES = [Family("gen-" + kd, gen_case(kd), quick=q, thorough=th)
             for kd, q, th in (("line", 20, 400), ("tri", 40, 1600), ("quad", 30, 1200), ("tet", 24, 800),
                               ("hex", 20, 640), ("wedge", 14, 480))]
+FAMILIES.append(Family("after-operations", after_operations, 30, 900))
 FAMILIES.append(Family("docs-meshes", docs_meshes, 1, 1, budget={"quick": 60, "thorough": 120}))
-REQUIRED_REACH = ["several-components", "f2e-checked", "docs-meshes-loaded"]
+REQUIRED_REACH = ["several-components", "f2e-checked", "docs-meshes-loaded", "rechecked-after-operations"]
